@@ -9,8 +9,8 @@ CONSTANTS
   MaxCountSet = {0, 1}
   MaxVerifySet = {0, 1, 2}
   MaxSends = 2
-INVARIANTS NeverRefused TypeOK Coupled WindowBound AlphabetCovered
-PROPERTIES VerifiesWhenDue RejectsUnlessDue LimitTruthful SendsBounded RefusalsJustified SendResets
+INVARIANTS TypeOK Coupled WindowBound AlphabetCovered
+PROPERTIES NeverRefused VerifiesWhenDue RejectsUnlessDue LimitTruthful SendsBounded RefusalsJustified SendResets
 CONSTRAINT Bound
 VIEW View
 CHECK_DEADLOCK FALSE
